@@ -63,7 +63,7 @@ pub struct Std {
 /// Contents go round-robin to the main content pack (id 1) and the `extra` packs (ids 2..).
 /// `idgap`: the extra packs get ids 2 + idgap + k (pack ids need not be contiguous).
 /// `cmax` > 0 caps the content sizes (length % (cmax + 1)): many contents in a small file.
-pub fn std_container(out: &str, pkg: &str, comp: &str, n: u32, extra: u32, seed: u64, idgap: u32, cmax: usize, orphans: u32) -> Result<Std, String> {
+pub fn std_container(out: &str, pkg: &str, comp: &str, n: u32, extra: u32, seed: u64, idgap: u32, cmax: usize, orphans: u32, indexed: bool) -> Result<Std, String> {
     let mut creator = BasicCreator::new(out, concat_mode(pkg), VENDOR, compression(comp), Arc::new(()))
         .map_err(|e| format!("{e}"))?;
     let dir = std::path::Path::new(out).parent().unwrap().to_path_buf();
@@ -79,7 +79,8 @@ pub fn std_container(out: &str, pkg: &str, comp: &str, n: u32, extra: u32, seed:
         extras.push(c);
         extra_paths.push(ps);
     }
-    let value_store = jbk::creator::ValueStore::new_plain(None);
+    // `indexed`: the strings go to an indexed value store instead of a plain one
+    let value_store = if indexed { jbk::creator::ValueStore::new_indexed() } else { jbk::creator::ValueStore::new_plain(None) };
     let sch = schema::Schema::new(
         schema::CommonProperties::new(vec![
             schema::Property::new_array(1, value_store.clone(), "AString"),
